@@ -6,9 +6,9 @@ ROOT = os.path.dirname(os.path.dirname(os.path.abspath(__file__)))
 CHECKS = {
  'C11': dict(
     category='model_checking', design_ref='DESIGN.md 4/C11',
-    technique='explicit-state exploration of the real engine: all (prefix history, probe) pairs to depth 2/3, differential oracle against a fresh engine on a copy of the database',
-    text='Every sequence of up to 2 (quick) / 3 (thorough) requests over a 16-19 letter alphabet by three clients under five protocol versions (incl. requests rejected in the header) is executed on the real session+engine; in every reached state each of 61 probes is run both there and on a fresh engine over a copy of the same database, and response and post-state must be identical. Exhaustive within the bound; this is the right level because the property is a non-interference statement over histories that no finite set of unit tests covers.',
-    note='Time and os.urandom are owned by the harness. Identifier-less Activate/Revoke cannot be sent because the decoder rejects them. Alphabet and depth bound as stated; transient state that only a longer history can create is not covered.'),
+    technique='explicit-state exploration of the real session+engine: all (prefix history, probe) pairs within the depth bound, differential oracle against a fresh engine on a copy of the database',
+    text='Prefix histories over a 22-letter alphabet of requests by three clients under 1.0-2.0 and unsupported versions (incl. requests rejected in the header and requests entering the engine API directly, without the codec) - quick: all of length 0..1 and length 2 with the first request from a 6-letter core; thorough: all of length 0..2 and length 3 with the first two from the core - are executed on the real session+engine; in every reached state each of 66 probes (identifier-less, version-sensitive, identity-sensitive) is run both there and on a fresh engine over a copy of the same database, and response and post-state must be identical. Exhaustive within the bound; a non-interference statement over histories that no finite set of unit tests covers.',
+    note='Time and os.urandom are owned by the harness; RSA keys come from a pool. Identifier-less Activate/Revoke cannot be sent because the decoder rejects them. Transient state that only a longer history can create is not covered.'),
  'C04': dict(
     category='model_checking', design_ref='DESIGN.md 4/C04',
     technique='explicit-state BFS to fixpoint over the real engine per (object kind, usage-mask variant); thorough adds the unmerged depth-3 sequence tree with a differential check of the state abstraction',
